@@ -298,6 +298,73 @@ def m_convert(rng: random.Random):
     return text, f"convert:{k}"
 
 
+DOMAIN_POOL = ["com.microsoft", "custom.ext", "third.dom", "a.b", "zz.top", "pkg.onnxscript.x", "ai.onnx.contrib", "q"]
+
+
+def m_multi_domain(rng: random.Random):
+    """Softsign replaced by a chain of ops from k NEW domains; some of them may already be imported by the model."""
+    k = rng.randint(1, 4)
+    doms = rng.sample(DOMAIN_POOL, k)
+    pre = [d for d in doms if rng.random() < 0.2]
+    imports = '"" : 18' + "".join(f', "{d}" : 1' for d in pre)
+    text = f"<ir_version: 8, opset_import: [{imports}]>\nagraph (float[4] x) => (float[4] y)\n{{\n  a = Abs (x)\n  y = Softsign (a)\n}}\n"
+    return {"k": "model", "op": "rewrite", "rules": "multi_domain", "domains": doms, "preimported": pre, "model": text}, f"rewrite:multi_domain:{k - len(pre)}new"
+
+
+def m_as_function(rng: random.Random):
+    """matched nodes from three custom domains extracted into a function (as_function=True)"""
+    order = ["custom.a", "custom.b", "custom.c", "custom.f"]
+    rng.shuffle(order)
+    imports = '"" : 18' + "".join(f', "{d}" : {rng.randint(1, 3)}' for d in order)
+    text = (
+        f"<ir_version: 8, opset_import: [{imports}]>\nagraph (float[4] x) => (float[4] y)\n{{\n"
+        "  t = custom.b.B (x)\n  u = custom.c.C (t)\n  v = custom.a.A (u)\n  y = Neg (v)\n}\n"
+    )
+    return {"k": "model", "op": "rewrite", "rules": "as_function", "model": text}, "rewrite:as_function:3domains"
+
+
+def m_version_sensitive(rng: random.Random):
+    """the same op folded at an opset where its signature differs (axes attribute up to 12, axes input from 13)"""
+    opset = rng.choice([11, 13])
+    opname = rng.choice(["Squeeze", "Unsqueeze", "ReduceSum"])
+    if opname == "Squeeze":
+        cshape, cvals, axes = "1,3", "1,2,3", [0]
+    elif opname == "Unsqueeze":
+        cshape, cvals, axes = "3", "1,2,3", [rng.choice([0, 1])]
+    else:
+        cshape, cvals, axes = "2,2", "1,2,3,4", [rng.choice([0, 1])]
+    hdr = f'<ir_version: 7, opset_import: ["" : {opset}]>\n'
+    extra = "<keepdims = 0>" if opname == "ReduceSum" and opset == 13 else ""
+    if opset == 11:
+        attr = f"<axes = {axes}" + (", keepdims = 0>" if opname == "ReduceSum" else ">")
+        body = f"  c = {opname} {attr} (k)\n"
+        init = f"<float[{cshape}] k = {{{cvals}}}>"
+    else:
+        body = f"  c = {opname} {extra} (k, ax)\n"
+        init = f"<float[{cshape}] k = {{{cvals}}}, int64[1] ax = {{{axes[0]}}}>"
+    text = hdr + f"agraph (float[3] x) => (float[?] y)\n{init}\n{{\n{body}  f = Flatten <axis = 0> (c)\n  r = ReduceMax <keepdims = 0> (f)\n  y = Mul (x, r)\n}}\n"
+    return {"k": "model", "op": rng.choice(["fold", "optimize", "optimize"]), "model": text}, f"fold:version_sensitive:{opname}@{opset}"
+
+
+def gen_script_castable(rng: random.Random, name: str):
+    """an identifier that is a script-time constant in one script and a tensor parameter in another"""
+    ident = rng.choice(["const", "k", "int64_1", "scale", "const_0"])
+    if rng.random() < 0.5:
+        # the identifier is a constant (castable literal)
+        if ident in ("const", "const_0"):
+            src = f"@DEC\ndef {name}(x: FLOAT[3]):\n    y = x + 1.0\n    z = y * 2.0\n    return z\n"
+        elif ident == "int64_1":
+            src = f"@DEC\ndef {name}(x: INT64[3]):\n    return op.Gather(x, 1)\n"
+        else:
+            src = f"@DEC\ndef {name}(x: FLOAT[3]):\n    {ident} = 2.0\n    return x * {ident}\n"
+        return {"k": "script", "name": name, "src": src}, "script:castable:as_constant"
+    ty = rng.choice(["INT64", "DOUBLE", "FLOAT"])
+    src = f"@DEC\ndef {name}({ident}: {ty}[3], x: FLOAT[3]):\n    return op.Add(x, {ident})\n"
+    if rng.random() < 0.5:
+        src = f"@DEC\ndef {name}({ident}: {ty}[3], x: FLOAT[3]):\n    return x * {ident}\n"
+    return {"k": "script", "name": name, "src": src}, "script:castable:as_tensor"
+
+
 MODEL_GENS = [m_reshape_reshape, m_reshape_reshape, m_flatten, m_conv_pad, m_conv_pad, m_materialize, m_misc]
 
 
@@ -317,10 +384,16 @@ def gen_model_op(rng: random.Random, allow_fail: bool = True):
         tgt = rng.choice([19, 20, 21, 22, 23, 17])
         kind = rng.choice(["convert", "convert", "convert_proto"])
         return {"k": "model", "op": kind, "target": tgt, "model": text}, f"{kind}:{tag}"
-    if allow_fail and r < 0.36:
+    if r < 0.33:
+        return m_multi_domain(rng)
+    if r < 0.345:
+        return m_as_function(rng)
+    if r < 0.39:
+        return m_version_sensitive(rng)
+    if allow_fail and r < 0.42:
         text, tag = m_boom(rng)
         return {"k": "model", "op": "rewrite", "rules": rng.choice(["default_then_boom", "boom_first"]), "model": text}, "rewrite:boom(fails)"
-    if allow_fail and r < 0.40:
+    if allow_fail and r < 0.45:
         text, tag = m_misc(rng)
         text = text.replace("float[2] c1", "float[2] c1")
         return {"k": "model", "op": "fold", "raise_on": rng.choice(["Add", "Mul", "Cast", "Relu"]), "model": text}, "fold:interrupted?"
@@ -648,7 +721,7 @@ def gen_history_op(rng: random.Random, idx: int):
     if r < 0.55:
         return gen_script_bad(rng, f"h{idx}")
     if r < 0.72:
-        o, tg = rng.choice([gen_script_if, gen_script_plain, gen_script_globals, gen_script_ndarray])(rng, f"h{idx}")
+        o, tg = rng.choice([gen_script_if, gen_script_plain, gen_script_globals, gen_script_ndarray, gen_script_castable, gen_script_castable])(rng, f"h{idx}")
         if rng.random() < 0.6:
             o["proto_overrides"] = gen_overrides(rng) or {"producer_name": 3}
             tg += "+overrides"
@@ -670,7 +743,7 @@ def gen_target(rng: random.Random, idx: int):
     if r < 0.5:
         return gen_model_op(rng, allow_fail=False)
     if r < 0.8:
-        return rng.choice([gen_script_if, gen_script_if, gen_script_plain, gen_script_globals, gen_script_ndarray])(rng, f"t{idx}")
+        return rng.choice([gen_script_if, gen_script_if, gen_script_plain, gen_script_globals, gen_script_ndarray, gen_script_castable])(rng, f"t{idx}")
     if r < 0.86:
         return {"k": "sugar"}, "sugar"
     if r < 0.92:
